@@ -8,7 +8,7 @@
    [sr_signed sr] and empty otherwise.  [hmac] is universally quantified.
    [t] is the request's TSIG RR, [m] the request without it, [find_key] the HashMap lookup. *)
 From QV Require Import Model.TsigMsg Model.TsigSrv Spec.Tsig8945S Spec.TsigRepr Spec.TsigSrvS Spec.TsigSrvRepr
-  Proofs.TsigMsgP Proofs.TsigSrvP.
+  Proofs.TsigEncP Proofs.TsigMsgP Proofs.TsigSrvP.
 
 Section C10.
 Variable hmac : alg -> bytes -> bytes -> bytes.
@@ -87,6 +87,39 @@ Theorem c10_table : forall keys t m now sent_id,
 Proof. exact (handle_tsig_spec hmac). Qed.
 
 End C10.
+
+(* Non-vacuity: a concrete key set, request and MAC function meet the hypotheses of c10_accept,
+   c10_badtime and c10_badkey, and the decisions are the expected ones. *)
+Example c10_example :
+  let hmac := fun (a : alg) (k d : bytes) => firstn (output_size a) (k ++ d ++ repeat 0%N 32) in
+  let keys := [mkKey [1; 75; 0]%N HmacSha256 [9; 9]%N] in
+  let m := mkSmsg 4660 256 1 0 0 0 [1; 97; 0; 0; 1; 0; 1]%N in
+  let t0 := mkStsig [[107]]%N (salg_name SSha256) 1000 300 [] 4660 0 [] in
+  let t := with_mac t0 (hmac HmacSha256 [9; 9]%N (spec_digest DRequest m t0)) in
+  wf_stsig t /\ wf_smsg m /\ find_key keys (canon_wire (t_key t)) = Some (mkKey [1; 75; 0]%N HmacSha256 [9; 9]%N) /\
+  spec_accepts (mac_fn_of hmac) DRequest m t SSha256 [9; 9]%N 1300 /\
+  (exists d, handle_tsig hmac keys (read_of t) (sent_prefix 1 m) (be48 1300) = Ok d /\ d_rcode d = 0%N /\ d_authenticated d = true) /\
+  (exists d, handle_tsig hmac keys (read_of t) (sent_prefix 1 m) (be48 1301) = Ok d /\ d_rcode d = 9%N /\
+             p_error (d_rr d) = 18%N /\ d_authenticated d = false) /\
+  (exists d, handle_tsig hmac [] (read_of t) (sent_prefix 1 m) (be48 1300) = Ok d /\ d_rcode d = 9%N /\
+             p_error (d_rr d) = 17%N /\ d_authenticated d = false).
+Proof.
+  cbv zeta. split.
+  { unfold wf_stsig, valid_sname.
+    repeat split;
+      try (apply wf_bytesb_spec; vm_compute; reflexivity);
+      try (apply N.ltb_lt; vm_compute; reflexivity);
+      try (apply N.leb_le; vm_compute; reflexivity);
+      try (apply Nat.leb_le; vm_compute; reflexivity);
+      repeat constructor;
+      try (apply wf_bytesb_spec; vm_compute; reflexivity);
+      try (apply Nat.leb_le; vm_compute; reflexivity). }
+  split; [unfold wf_smsg; repeat split; try (apply N.ltb_lt; vm_compute; reflexivity); apply wf_bytesb_spec; reflexivity|].
+  split; [vm_compute; reflexivity|].
+  split; [apply spec_verify_ok_iff; vm_compute; reflexivity|].
+  split; [eexists; split; [vm_compute; reflexivity|split; reflexivity]|].
+  split; eexists; (split; [vm_compute; reflexivity|repeat split; reflexivity]).
+Qed.
 
 Print Assumptions c10_accept.
 Print Assumptions c10_badsig.
